@@ -10,7 +10,7 @@ type runSpec struct {
 	loglevel   string
 	pkg        string // worker package (default ./cmd/vworker)
 	goarch     string // build and run the worker for this GOARCH (pure-Go workers only)
-	serverBin  bool // needs the real cmds/coredhcp binary (built -race by the driver)
+	serverBin  bool   // needs the real cmds/coredhcp binary (built -race by the driver)
 	parallel   int
 	qBatches   int
 	qCases     int
@@ -44,7 +44,9 @@ var commonAssumptions = []string{
 
 func (p *propSpec) with(r ...runSpec) *propSpec { p.runs = append(p.runs, r...); return p }
 
-func assume(extra ...string) []string { return append(append([]string{}, commonAssumptions...), extra...) }
+func assume(extra ...string) []string {
+	return append(append([]string{}, commonAssumptions...), extra...)
+}
 
 const allocRule = "each case fixes a pool (IPv4 sizes 1,2,3,63,64,65,127,128,129,256,4097 incl. ranges starting at 0.0.0.0 / ending at 255.255.255.255; IPv6 pool/allocation lengths on both sides of the 64-bit boundary, all-ones/all-zero bases) and a PRNG seed; 20-200 Allocate/Free operations are drawn from the PRNG and the model state (hint on free/taken/own block, outside below/above, other family, length-only, every mask class, IPv4 hints in 4- and 16-byte form with no mask, /32 and /128; Free of outstanding block, sub-prefix, never-allocated, already-freed, 1..N+2 blocks below/above the pool, far away) and every result is decided by a set-of-outstanding-blocks model with math/big address arithmetic; every history ends with a conservation audit (drain). The histories run on the native build and on a GOARCH=386 build of the allocator packages. "
 
@@ -65,8 +67,8 @@ func allocSpec(nontrivial string, guards ...guard) *propSpec {
 
 func prefixSpec(nontrivial string, guards ...guard) *propSpec {
 	return &propSpec{
-		level: "exploration",
-		rule: "each history fixes a pool (/56-/64, /60-/64, /62-/64, /64-/64, /48-/52, /120-/124, ...), 1-6 clients (every DUID kind incl. opaque) and 20-60 messages (SOLICIT/REQUEST/RENEW/REBIND, 0-3 IA_PD x 0-3 IAPrefix hints from {none, length-only, length 0, own prefix, in-pool free/other's/own block, out-of-pool, longer than the allocation size, length > 128}, 0-2 relay layers, retransmissions) sent as wire bytes through HandleMsg6 into the plugin obtained from Plugin.Setup6; a per-client prefix model decides every reply and fresh clients drain the pool at the end (conservation). " + nontrivial,
+		level:       "exploration",
+		rule:        "each history fixes a pool (/56-/64, /60-/64, /62-/64, /64-/64, /48-/52, /120-/124, ...), 1-6 clients (every DUID kind incl. opaque) and 20-60 messages (SOLICIT/REQUEST/RENEW/REBIND, 0-3 IA_PD x 0-3 IAPrefix hints from {none, length-only, length 0, own prefix, in-pool free/other's/own block, out-of-pool, longer than the allocation size, length > 128}, 0-2 relay layers, retransmissions) sent as wire bytes through HandleMsg6 into the plugin obtained from Plugin.Setup6; a per-client prefix model decides every reply and fresh clients drain the pool at the end (conservation). " + nontrivial,
 		assumptions: assume("no lease expiry/GC exists in the code: 'for as long as the server runs' = the length of the history; the thorough tier adds instances that are driven again after a real wait of one hour (every lifetime has run out: lapsed blocks may go to anyone, never to two clients at once)", "length-only hints (::/64) are outside C09's obligations"),
 		runs:        []runSpec{{engine: "prefix", qBatches: 32, qCases: 16, tBatches: 128, tCases: 400}, {engine: "prefixconc", race: true, parallel: 8, qBatches: 8, qCases: 12, tBatches: 64, tCases: 100}},
 		guards:      guards,
@@ -102,22 +104,26 @@ var specs = map[string]*propSpec{
 		guard{"alloc.c04.realloc_after_free", 500, "re-allocation after Free must be exercised"},
 		guard{"allocconc.overlapping_pairs", 2000, "concurrent histories must really overlap"}, guard{"allocconc.porcupine_ok", 300, "linearizability verdicts"}).with(allocConcRun),
 	"C05": allocSpec("Non-trivial (C05) = history that reached a full pool (refusal observed or drained to capacity); distinct by (pool, seed).",
-		guard{"alloc.c05.refused_when_full", 100, "exhaustion must be reached"}, guard{"alloc.audit.drains", 500, "conservation audits"}),
+		guard{"alloc.c05.refused_when_full", 100, "exhaustion must be reached"}, guard{"alloc.audit.drains", 500, "conservation audits"},
+		guard{"allocconc.porcupine_ok", 300, "concurrent histories with colliding hints: capacity stays exact"}).with(allocConcRun),
 	"C06": allocSpec("Non-trivial (C06) = history containing a Free that must fail; distinct by (pool, seed).",
 		guard{"alloc.c06.must_fail_free", 1000, "failing-Free classes must be exercised"}, guard{"alloc.op.free.below-pool", 200, "below-pool class"},
 		guard{"allocconc.porcupine_ok", 300, "concurrent histories incl. Frees of blocks the caller does not hold"}).with(allocConcRun),
 	"C07": allocSpec("Non-trivial (C07) = history containing a hinted allocation on a free block; distinct by (pool, seed).",
 		guard{"alloc.c07.hinted_free_block", 1000, "hints naming a free block"}),
 	"C01": {
-		level: "exploration",
-		rule: "each case draws a DHCPv4 and/or DHCPv6 chain over all built-in plugins (any subset, any order, arguments from each plugin's accepted grammar; half of the cases dual-stack in one process), a listener bound to ve0/vf0 or unbound, and a history of 500-700 datagrams mixing stateful client scripts (6 DHCPv4 clients incl. hlen 0, 5 and 16; 4 DHCPv6 clients with IA_PD hints of length 0/64/72/128/200, IA_NA, relayed with client-link-layer option), retransmissions, grammar-generated well-formed and hostile datagrams, mutations (bit/byte flips, truncation, length +-1, duplication, splice, trailers), the empty datagram and 65507-byte datagrams; then one canary request per protocol. It runs in a fresh server process inside the private network namespace (link-level replies are real frames). Oracle: process alive, every datagram's handling returned (a watchdog expiry is a violation only if the goroutine dump shows a handler parked on a lock), canary handled, at most one reply (UDP captures + sniffed frames) per datagram. Non-trivial = history in which the chain produced at least one reply; distinct by (seed, chains)",
+		level:       "exploration",
+		rule:        "each case draws a DHCPv4 and/or DHCPv6 chain over all built-in plugins (any subset, any order, arguments from each plugin's accepted grammar; half of the cases dual-stack in one process), a listener bound to ve0/vf0 or unbound, and a history of 500-700 datagrams mixing stateful client scripts (6 DHCPv4 clients incl. hlen 0, 5 and 16; 4 DHCPv6 clients with IA_PD hints of length 0/64/72/128/200, IA_NA, relayed with client-link-layer option), retransmissions, grammar-generated well-formed and hostile datagrams, mutations (bit/byte flips, truncation, length +-1, duplication, splice, trailers), the empty datagram and 65507-byte datagrams; then one canary request per protocol. It runs in a fresh server process inside the private network namespace (link-level replies are real frames). Oracle: process alive, every datagram's handling returned (a watchdog expiry is a violation only if the goroutine dump shows a handler parked on a lock), canary handled, at most one reply (UDP captures + sniffed frames) per datagram. Non-trivial = history in which the chain produced at least one reply; distinct by (seed, chains)",
 		assumptions: assume("'never blocks forever' is observed as 'returned within a 150 s watchdog for the whole history, or no lock-parked handler in the dump'", "an unbound listener always gets a non-zero receive ifindex, as the kernel delivers once IP_PKTINFO is on"),
-		runs:        []runSpec{{engine: "hostile", netns: true, qBatches: 16, qCases: 3, tBatches: 64, tCases: 40, stall: 6 * time.Minute}, wireRun(0, 12), raceSlice(), hourRun()},
-		guards:      []guard{{"hostile.replies", 2000, "replies produced"}, {"hostile.canaries_returned", 40, "canaries"}, {"hostile.plugin.prefix", 5, "prefix in chains"}, {"hostile.plugin.range", 5, "range in chains"}, {"hostile.plugin.file", 5, "file in chains"}, {"hostile.chains_dual_stack", 10, "dual-stack chains"}},
+		runs: []runSpec{{engine: "hostile", netns: true, qBatches: 16, qCases: 3, tBatches: 64, tCases: 40, stall: 6 * time.Minute},
+			// the same histories against a 32-bit build of the whole server (GOARCH=386, no cgo: chains without range)
+			{engine: "hostile", netns: true, goarch: "386", qBatches: 6, qCases: 2, tBatches: 16, tCases: 12, stall: 6 * time.Minute},
+			wireRun(0, 12), raceSlice(), hourRun()},
+		guards: []guard{{"hostile.replies", 2000, "replies produced"}, {"hostile.canaries_returned", 40, "canaries"}, {"hostile.plugin.prefix", 5, "prefix in chains"}, {"hostile.plugin.range", 5, "range in chains"}, {"hostile.plugin.file", 5, "file in chains"}, {"hostile.chains_dual_stack", 10, "dual-stack chains"}},
 	},
 	"C02": {
-		level: "exploration",
-		rule: "each history fixes a range (2..256 addresses, also 4097 in the thorough tier; ranges ending at 255.255.255.255 and starting at x.x.x.0), a lease time and an alphabet of N+3 clients (hardware-address lengths 0..16, arbitrary-byte hostnames); DISCOVER/REQUEST datagrams go as wire bytes through HandleMsg4 into the plugin obtained from Plugin.Setup4 on a real sqlite file, with restarts on the same file (wider range / higher lease) at PRNG-chosen points; every reply is decided by a lease model (in range, injective, sticky, lease time, drop iff full). Concurrent bursts are checked with porcupine under -race. Non-trivial = history that served >= 2 clients and reached exhaustion or crossed a restart; distinct by (range, lease, seed)",
+		level:       "exploration",
+		rule:        "each history fixes a range (2..256 addresses, also 4097 in the thorough tier; ranges ending at 255.255.255.255 and starting at x.x.x.0), a lease time and an alphabet of N+3 clients (hardware-address lengths 0..16, arbitrary-byte hostnames); DISCOVER/REQUEST datagrams go as wire bytes through HandleMsg4 into the plugin obtained from Plugin.Setup4 on a real sqlite file, with restarts on the same file (wider range / higher lease) at PRNG-chosen points; every reply is decided by a lease model (in range, injective, sticky, lease time, drop iff full). Concurrent bursts are checked with porcupine under -race. Non-trivial = history that served >= 2 clients and reached exhaustion or crossed a restart; distinct by (range, lease, seed)",
 		assumptions: assume("the code has no lease expiry/GC, so 'first given' is over the whole history", "single-address ranges are refused by the plugin's setup and are not driven"),
 		runs: []runSpec{
 			{engine: "range", qBatches: 32, qCases: 8, tBatches: 192, tCases: 16},
@@ -128,8 +134,8 @@ var specs = map[string]*propSpec{
 			{"range.known_served_when_full", 20, "bound clients served when full"}, {"range.restarts", 20, "restarts"}, {"rangeconc.overlapping_pairs", 500, "real overlap"}},
 	},
 	"C03": {
-		level: "fault_enumeration",
-		rule: "crash points = every prefix of every request history: after every reply the database file (and any journal) is copied and reopened by a fresh plugin instance (Setup4 must succeed), leases4 rows are compared with the model (none lost/unknown/duplicated, stored expiry >= floor(t_before_call+lease)-1s) and known clients are probed for their address; thorough adds SIGKILL of a child process at acknowledged points. Hardware-address lengths 0..16, hostnames of arbitrary bytes incl. numeric-looking text. Non-trivial = crash point at which the database held >= 1 binding written by the handler; distinct by (history, step)",
+		level:       "fault_enumeration",
+		rule:        "crash points = every prefix of every request history: after every reply the database file (and any journal) is copied and reopened by a fresh plugin instance (Setup4 must succeed), leases4 rows are compared with the model (none lost/unknown/duplicated, stored expiry >= floor(t_before_call+lease)-1s) and known clients are probed for their address; thorough adds SIGKILL of a child process at acknowledged points. Hardware-address lengths 0..16, hostnames of arbitrary bytes incl. numeric-looking text. Non-trivial = crash point at which the database held >= 1 binding written by the handler; distinct by (history, step)",
 		assumptions: assume("crash points are process kills and file copies at quiescent points, not power failures (fsync honesty is not observable)", "hostname round-trip through sqlite NUMERIC affinity is recorded but is not part of the property"),
 		runs: []runSpec{
 			{engine: "range", qBatches: 32, qCases: 4, tBatches: 128, tCases: 12},
@@ -147,30 +153,30 @@ var specs = map[string]*propSpec{
 		guard{"prefix.repeat_or_renewal_from_holder", 2000, "renewals/repeats by holders"}, guard{"prefix.hint.own", 500, "exact renewals"}, guard{"prefix.hint.none", 1000, "hint-less IA_PDs"},
 		guard{"prefix.hint.length-0", 200, "length-0 hints"}, guard{"prefix.audits", 300, "conservation audits"}, guard{"prefix.retransmissions", 500, "retransmissions"}),
 	"C10": {
-		level: "exploration",
-		rule: "three kinds of case, each in a fresh server process through LoadPlugins: (static) a generated lease file of 1-40 lines - every MAC spelling (colon/hyphen/dot, 6/8/20 bytes, case) and address spelling (dotted, v4-mapped, compressed/expanded/upper-case IPv6), tabs/multiple blanks, comments, blank lines, duplicates, and in a third of the files one malformation (field count, MAC, address, wrong family) at a random position - accepted iff the reference parser accepts it, and then every listed MAC (and 3 unlisted) is asked for: listed -> last address listed (yiaddr + chain ends; exactly one IA_NA with the request's IAID), unlisted / no IA_NA -> reply identical to the reply without the plugin; (refresh) autorefresh with 1-10 good/bad updates of self-identifying versions, written in place (single equal-length pwrite) or installed by renaming a new file over the name, with or without a hard link that keeps the old file alive: each poll sequence must be old-or-new and monotone, a good version must be served for all MACs within 400 polls / 20 s (re-armed once), a bad one must leave the old version served; (dual) DHCPv4 and DHCPv6 instances in one process with their own files and independent rewrites. Non-trivial = static file with >= 2 entries or malformed, every refresh sequence, every dual case; distinct by content",
+		level:       "exploration",
+		rule:        "three kinds of case, each in a fresh server process through LoadPlugins: (static) a generated lease file of 1-40 lines - every MAC spelling (colon/hyphen/dot, 6/8/20 bytes, case) and address spelling (dotted, v4-mapped, compressed/expanded/upper-case IPv6), tabs/multiple blanks, comments, blank lines, duplicates, and in a third of the files one malformation (field count, MAC, address, wrong family) at a random position - accepted iff the reference parser accepts it, and then every listed MAC (and 3 unlisted) is asked for: listed -> last address listed (yiaddr + chain ends; exactly one IA_NA with the request's IAID), unlisted / no IA_NA -> reply identical to the reply without the plugin; (refresh) autorefresh with 1-10 good/bad updates of self-identifying versions, written in place (single equal-length pwrite) or installed by renaming a new file over the name, with or without a hard link that keeps the old file alive: each poll sequence must be old-or-new and monotone, a good version must be served for all MACs within 400 polls / 20 s (re-armed once), a bad one must leave the old version served; (dual) DHCPv4 and DHCPv6 instances in one process with their own files and independent rewrites. Non-trivial = static file with >= 2 entries or malformed, every refresh sequence, every dual case; distinct by content",
 		assumptions: assume("removing the file and creating it again (a window in which the name does not exist) is outside 'rewrites' and not driven", "whitespace-only lines, indented comments and CR line endings are not classified by the statement and are not generated", "'eventually' is restated as bounded progress: 400 polls over >= 20 s with one re-arm"),
 		runs:        []runSpec{{engine: "file", parallel: 12, qBatches: 24, qCases: 12, tBatches: 96, tCases: 120, stall: 6 * time.Minute}},
 		guards: []guard{{"file.static.malformed", 30, "malformed files"}, {"file.static.served", 500, "served listed clients"}, {"file.static.unlisted_untouched", 200, "unlisted clients"},
 			{"file.refresh.good_rewrites", 30, "good rewrites"}, {"file.refresh.bad_rewrites_held", 10, "bad rewrites"}, {"file.dual.requests", 30, "dual-stack requests"}},
 	},
 	"C11": {
-		level: "exploration",
-		rule: "per case one of 7 plugin chains (empty, option plugins, range, file, a NAK-producing plugin, yiaddr-assigning + mtu/staticroute/autoconfigure, ipv6only+sleep+nbp) in a fresh server process inside the private network namespace (listener bound or unbound, both arrival links): (1) the full matrix of 256 opcodes x 23 message-type shapes (absent, 0..18, 255, two-byte, empty) with random relay/broadcast/ciaddr fields, option 61/82/116 presence; (2) 1500 (quick) / 6000 (thorough) generated datagrams (all header fields, hlen 0..16 and beyond, option table with wrong lengths and lying length bytes, pads) of which a third are mutated (bit/byte flips, truncation at structural boundaries, length +-1, duplication, splice, large trailers). Every UDP write (capture hook) and every sniffed link-level frame counts as a reply. Oracle: answered only if the codec accepts it, op=BOOTREQUEST and type DISCOVER/REQUEST; reply fields/echo/type per the statement, at most one reply. Distinct by (chain, opcode class, type bytes, answered?) plus every distinct answered datagram",
+		level:       "exploration",
+		rule:        "per case one of 7 plugin chains (empty, option plugins, range, file, a NAK-producing plugin, yiaddr-assigning + mtu/staticroute/autoconfigure, ipv6only+sleep+nbp) in a fresh server process inside the private network namespace (listener bound or unbound, both arrival links): (1) the full matrix of 256 opcodes x 23 message-type shapes (absent, 0..18, 255, two-byte, empty) with random relay/broadcast/ciaddr fields, option 61/82/116 presence; (2) 1500 (quick) / 6000 (thorough) generated datagrams (all header fields, hlen 0..16 and beyond, option table with wrong lengths and lying length bytes, pads) of which a third are mutated (bit/byte flips, truncation at structural boundaries, length +-1, duplication, splice, large trailers). Every UDP write (capture hook) and every sniffed link-level frame counts as a reply. Oracle: answered only if the codec accepts it, op=BOOTREQUEST and type DISCOVER/REQUEST; reply fields/echo/type per the statement, at most one reply. Distinct by (chain, opcode class, type bytes, answered?) plus every distinct answered datagram",
 		assumptions: assume("that a non-nil final response is actually sent is C13's statement", "hlen > 16 is clipped by the codec and only checked for no-crash"),
 		runs:        []runSpec{{engine: "match4", netns: true, parallel: 14, qBatches: 7, qCases: 1, tBatches: 140, tCases: 1, stall: 5 * time.Minute}, wireRun(0, 6), wireVarRun(), raceSlice()},
 		guards:      []guard{{"match4.replies_to_type_1", 200, "replies to DISCOVER"}, {"match4.replies_to_type_3", 200, "replies to REQUEST"}, {"match4.dropped", 10000, "dropped datagrams"}, {"match4.replies_l2", 20, "link-level replies"}},
 	},
 	"C12": {
-		level: "exploration",
-		rule: "per case one of 5 chains (empty; server_id+dns+searchdomains; prefix+dns; file+nbp; sleep+synthetic) in a fresh server process inside the private network namespace, listener bound to ve0 or unbound: (1) matrix of message types 0..255 x client-id present/absent x rapid-commit present/absent, each sent plain and wrapped in 0-4 Relay-Forward layers with random link/peer addresses and Interface-ID/Remote-ID/client-link-layer options, from random global or link-local sources and ports, arriving on ve0 or vf0; (2) 1200 (quick) / 5000 (thorough) generated datagrams (every option kind incl. nested IA options, IAPrefix lengths 0 and > 128, relay depth to 32, Relay-Reply in the wrong place, relay without relay-message) of which a third are mutated. Oracle: answered only if the codec finds an inner message of a supported type; reply type table, xid, client-id, per-layer relay mirror, innermost message equal to the stateless chain's answer to the un-relayed message, destination = source, interface pin iff link-local. Distinct by (chain, type, relay depth, source class, answered?) plus every distinct answered datagram",
+		level:       "exploration",
+		rule:        "per case one of 5 chains (empty; server_id+dns+searchdomains; prefix+dns; file+nbp; sleep+synthetic) in a fresh server process inside the private network namespace, listener bound to ve0 or unbound: (1) matrix of message types 0..255 x client-id present/absent x rapid-commit present/absent, each sent plain and wrapped in 0-4 Relay-Forward layers with random link/peer addresses and Interface-ID/Remote-ID/client-link-layer options, from random global or link-local sources and ports, arriving on ve0 or vf0; (2) 1200 (quick) / 5000 (thorough) generated datagrams (every option kind incl. nested IA options, IAPrefix lengths 0 and > 128, relay depth to 32, Relay-Reply in the wrong place, relay without relay-message) of which a third are mutated. Oracle: answered only if the codec finds an inner message of a supported type; reply type table, xid, client-id, per-layer relay mirror, innermost message equal to the stateless chain's answer to the un-relayed message, destination = source, interface pin iff link-local. Distinct by (chain, type, relay depth, source class, answered?) plus every distinct answered datagram",
 		assumptions: assume("requests without a client identifier must not get one invented; relay chains containing Relay-Reply layers are no-crash only"),
 		runs:        []runSpec{{engine: "match6", netns: true, parallel: 10, qBatches: 10, qCases: 1, tBatches: 200, tCases: 1, stall: 5 * time.Minute}, wireRun(0, 6), raceSlice()},
 		guards:      []guard{{"match6.replies", 2000, "replies"}, {"match6.replies_relayed", 500, "relayed replies"}, {"match6.replies_link_local", 500, "link-local replies"}, {"match6.dropped", 5000, "drops"}},
 	},
 	"C13": {
-		level: "exploration",
-		rule: "synthetic plugins registered with plugins.RegisterPlugin whose handlers behave as pass / modify / replace response / stop with response / stop with nil and log the identity and marker of the request/response objects they receive and return; every chain in behaviours^len for len 0..4 (781 chains; len <= 5 in the thorough tier) x both protocols, then random mixes of dual / v4-only / v6-only / failing-setup / nil-handler / unknown plugins; a quarter to a third of the configurations go through YAML and config.Load, the rest through a config value; each in a fresh server process through plugins.LoadPlugins and the real HandleMsg4/6. Oracle: handler list = listed plugins supporting the protocol, in order (or start-up error); invocation log = configured order cut after the first stop, once each, same request object, response = predecessor's return value; datagram sent = response returned last; nothing sent after nil. In every chain-child engine each loaded built-in handler is wrapped to assert 'nil response only with stop'. Distinct by (chain, protocol, config path)",
+		level:       "exploration",
+		rule:        "synthetic plugins registered with plugins.RegisterPlugin whose handlers behave as pass / modify / replace response / stop with response / stop with nil and log the identity and marker of the request/response objects they receive and return; every chain in behaviours^len for len 0..4 (781 chains; len <= 5 in the thorough tier) x both protocols, then random mixes of dual / v4-only / v6-only / failing-setup / nil-handler / unknown plugins; a quarter to a third of the configurations go through YAML and config.Load, the rest through a config value; each in a fresh server process through plugins.LoadPlugins and the real HandleMsg4/6. Oracle: handler list = listed plugins supporting the protocol, in order (or start-up error); invocation log = configured order cut after the first stop, once each, same request object, response = predecessor's return value; datagram sent = response returned last; nothing sent after nil. In every chain-child engine each loaded built-in handler is wrapped to assert 'nil response only with stop'. Distinct by (chain, protocol, config path)",
 		assumptions: assume("the enumeration is exhaustive over behaviours^len up to the stated length; longer chains and other behaviours are sampled"),
 		runs: []runSpec{{engine: "order", netns: true, qBatches: 16, qCases: 200, tBatches: 64, tCases: 1500},
 			// "built-in handlers only ever return a nil response together with stop": every built-in plugin in random
@@ -178,25 +184,25 @@ var specs = map[string]*propSpec{
 			{engine: "hostile", netns: true, qBatches: 16, qCases: 2, tBatches: 64, tCases: 12, stall: 6 * time.Minute},
 			// the real binary with several listeners: they must share one instance of every listed plugin
 			wireRun(2, 8)},
-		guards:      []guard{{"order.chains_checked", 1500, "chains"}, {"order.must_fail", 50, "bad configurations"}, {"order.nil_final", 200, "nil final responses"}, {"order.sent_checked", 1500, "sent datagrams"}, {"order.sent_link_level", 200, "responses sent as link-level frames"}},
+		guards: []guard{{"order.chains_checked", 1500, "chains"}, {"order.must_fail", 50, "bad configurations"}, {"order.nil_final", 200, "nil final responses"}, {"order.sent_checked", 1500, "sent datagrams"}, {"order.sent_link_level", 200, "responses sent as link-level frames"}},
 	},
 	"C14": {
-		level: "exploration",
-		rule: "each case is one accepted server_id spelling (DHCPv6: LL/LLT in every keyword spelling x MAC of 6/8/20 bytes in colon/hyphen/dot form; DHCPv4: dotted and v4-mapped address) hosted in a fresh server process; DHCPv6: all 256 message types x {no, matching, other kind, same kind other MAC, longer, shorter, opaque, enterprise, LLT with other time} Server Identifier x relay depth 0-2 decided by the RFC 8415 section 16 table; DHCPv4: siaddr {absent, zero, own, other} x option 54 {absent, zero, own, other} x {DISCOVER, REQUEST} x with/without parameter list; every answered message must carry exactly this server's identifier (option 54 and siaddr for DHCPv4). Distinct by (configuration, matrix cell)",
+		level:       "exploration",
+		rule:        "each case is one accepted server_id spelling (DHCPv6: LL/LLT in every keyword spelling x MAC of 6/8/20 bytes in colon/hyphen/dot form; DHCPv4: dotted and v4-mapped address) hosted in a fresh server process; DHCPv6: all 256 message types x {no, matching, other kind, same kind other MAC, longer, shorter, opaque, enterprise, LLT with other time} Server Identifier x relay depth 0-2 decided by the RFC 8415 section 16 table; DHCPv4: siaddr {absent, zero, own, other} x option 54 {absent, zero, own, other} x {DISCOVER, REQUEST} x with/without parameter list; every answered message must carry exactly this server's identifier (option 54 and siaddr for DHCPv4). Distinct by (configuration, matrix cell)",
 		assumptions: assume("0.0.0.0 inside option 54 is not classified by the statement: only no-crash is required there", "message types the server itself never answers (C12) are expected to stay unanswered"),
-		runs:        []runSpec{{engine: "sid", qBatches: 16, qCases: 4, tBatches: 64, tCases: 80}},
+		runs:        []runSpec{{engine: "sid", qBatches: 16, qCases: 4, tBatches: 64, tCases: 80}, wireVarRun()},
 		guards:      []guard{{"sid.dropped", 1000, "discard rows"}, {"sid.answered", 300, "answered rows"}},
 	},
 	"C15": {
-		level: "exploration",
-		rule: "full decision table giaddr {0, routable, link-local, broadcast} x ciaddr {same} x broadcast flag x reply {OFFER, ACK, NAK produced by a plugin} x yiaddr {0, assigned} x listener {bound to ve0, unbound} x arrival interface {ve0, vf0} = 768 cells, each with fresh random addresses/MAC/xid, 3 (quick) / 12 (thorough) repetitions, inside a private network namespace with two veth pairs; UDP replies observed at the server's WriteTo (destination, port, IP_PKTINFO ifindex), link-level unicasts observed as real frames sniffed on the veth peers (which link, destination MAC, destination IP, UDP ports, payload). Oracle: the RFC 2131 section 4.1 cascade written as an independent table. Distinct by (chain, cell)",
+		level:       "exploration",
+		rule:        "full decision table giaddr {0, routable, link-local, broadcast} x ciaddr {same} x broadcast flag x reply {OFFER, ACK, NAK produced by a plugin} x yiaddr {0, assigned} x listener {bound to ve0, unbound} x arrival interface {ve0, vf0} = 768 cells, each with fresh random addresses/MAC/xid, 3 (quick) / 12 (thorough) repetitions, inside a private network namespace with two veth pairs; UDP replies observed at the server's WriteTo (destination, port, IP_PKTINFO ifindex), link-level unicasts observed as real frames sniffed on the veth peers (which link, destination MAC, destination IP, UDP ports, payload). Oracle: the RFC 2131 section 4.1 cascade written as an independent table. Distinct by (chain, cell)",
 		assumptions: assume("hardware-address length 6 on the link-level path (an Ethernet frame cannot carry other lengths)", "needs CAP_NET_ADMIN to create the namespace; without it the check is inconclusive"),
 		runs:        []runSpec{{engine: "addr4", netns: true, parallel: 8, qBatches: 3, qCases: 8, tBatches: 64, tCases: 8}, wireRun(2, 6), raceSlice()},
 		guards:      []guard{{"addr4.rows.l2", 40, "link-level rows"}, {"addr4.rows.udp_pinned", 300, "pinned rows"}, {"addr4.rows.udp", 1000, "udp rows"}},
 	},
 	"C16": {
-		level: "exploration",
-		rule: "four -race workloads, every datagram on its own goroutine with buffers from the server's pool: (raceserver) DHCPv4 and DHCPv6 full chains in one process - server_id, sleep 200us (widens parse/bufpool.Put -> lease plugin), file autorefresh, range|prefix, option plugins - bursts of 4-64 datagrams (same client, distinct clients, pool nearly exhausted, mixed; direct and relayed) while both static lease files are rewritten in place concurrently; replies must echo their own request's xid/chaddr/client-id, leases stay in range/injective/sticky, prefixes disjoint/sticky, static versions per client never go backwards and are never a mixture; (rangeconc, prefixconc, allocconc) recorded call/return histories checked for linearizability with porcupine against the lease, prefix and allocator models. The Go race detector's log (halt_on_error=0) is parsed by the driver: any report with a coredhcp frame on either stack is a violation, deduplicated by outermost entry-point pair. Non-trivial = history with >= 1 truly overlapping pair of operations; distinct by (case, interleaving fingerprint)",
+		level:       "exploration",
+		rule:        "four -race workloads, every datagram on its own goroutine with buffers from the server's pool: (raceserver) DHCPv4 and DHCPv6 full chains in one process - server_id, sleep 200us (widens parse/bufpool.Put -> lease plugin), file autorefresh, range|prefix, option plugins - bursts of 4-64 datagrams (same client, distinct clients, pool nearly exhausted, mixed; direct and relayed) while both static lease files are rewritten in place concurrently; replies must echo their own request's xid/chaddr/client-id, leases stay in range/injective/sticky, prefixes disjoint/sticky, static versions per client never go backwards and are never a mixture; (rangeconc, prefixconc, allocconc) recorded call/return histories checked for linearizability with porcupine against the lease, prefix and allocator models. The Go race detector's log (halt_on_error=0) is parsed by the driver: any report with a coredhcp frame on either stack is a violation, deduplicated by outermost entry-point pair. Non-trivial = history with >= 1 truly overlapping pair of operations; distinct by (case, interleaving fingerprint)",
 		assumptions: assume("the race detector only judges accesses that executed; schedules are those the Go scheduler produced on this machine (overlap and buffer-reuse counts are in the evidence)", "porcupine timeouts are inconclusive"),
 		runs: []runSpec{
 			{engine: "raceserver", race: true, netns: true, parallel: 8, qBatches: 8, qCases: 3, tBatches: 64, tCases: 20, stall: 6 * time.Minute},
@@ -210,22 +216,22 @@ var specs = map[string]*propSpec{
 			{"race.static_versions_seen", 20, "static versions observed during refresh"}, {"race.l2_replies", 100, "link-level replies sniffed during bursts"}, {"race.pinned_replies", 500, "pinned replies checked"}, {"race.unanswerable_datagrams", 300, "datagrams of kinds the server never answers"}, {"rangeconc.porcupine_ok", 40, "range histories"}, {"prefixconc.porcupine_ok", 40, "prefix histories"}, {"allocconc.porcupine_ok", 100, "allocator histories"}},
 	},
 	"C17": {
-		level: "exploration",
-		rule: "each case is one option plugin with an argument vector from its accepted grammar (1-4 addresses, masks /1-/32, MTU 68-65535, durations, 1-4 domains with labels up to 63 bytes, 1-4 routes incl. /0 and /32, tftp/http/https/ftp URLs with and without params), hosted alone in a fresh server process, and 48 requests (DISCOVER/REQUEST or SOLICIT/REQUEST/RENEW/INFORMATION-REQUEST; option 55 / ORO = random subsets of the relevant codes in random order, or absent; option 116 present or not; yiaddr assigned by an earlier handler or not; option 51 already set or not). Differential oracle: reply with the plugin vs reply of the same chain without it must differ exactly by the table in model/opts.go (value encoded independently from the RFCs, present once, untouched otherwise, chain continues/stops/drops as stated). Non-trivial = every (configuration, request) pair evaluated; distinct by (plugin, args, request list, flags)",
+		level:       "exploration",
+		rule:        "each case is one option plugin with an argument vector from its accepted grammar (1-4 addresses, masks /1-/32, MTU 68-65535, durations, 1-4 domains with labels up to 63 bytes, 1-4 routes incl. /0 and /32, tftp/http/https/ftp URLs with and without params), hosted alone in a fresh server process, and 48 requests (DISCOVER/REQUEST or SOLICIT/REQUEST/RENEW/INFORMATION-REQUEST; option 55 / ORO = random subsets of the relevant codes in random order, or absent; option 116 present or not; yiaddr assigned by an earlier handler or not; option 51 already set or not). Differential oracle: reply with the plugin vs reply of the same chain without it must differ exactly by the table in model/opts.go (value encoded independently from the RFCs, present once, untouched otherwise, chain continues/stops/drops as stated). Non-trivial = every (configuration, request) pair evaluated; distinct by (plugin, args, request list, flags)",
 		assumptions: assume("argument values outside the wire range (MTU > 65535, durations >= 2^32 s) are outside 'in-range' and not generated", "request lists are sets (no duplicate codes); an empty option 55 is not generated", "nbp ends the chain in the code; whether it should is not part of the statement and is not asserted"),
 		runs:        []runSpec{{engine: "opt", qBatches: 16, qCases: 30, tBatches: 64, tCases: 600}, wireVarRun()},
 		guards:      []guard{{"opt.configs.ipv6only", 3, "ipv6only configurations"}, {"opt.configs.autoconfigure", 3, "autoconfigure"}, {"opt.configs.dns", 3, "dns"}, {"opt.configs.lease_time", 3, "lease_time"}},
 	},
 	"C18": {
-		level: "exploration",
-		rule: "YAML documents generated from the configuration grammar (server4/server6 present or not and in either order; listen absent / deprecated interface alias / scalar / list of 1-4 entries in every [address][%zone][:port] spelling incl. bracketed IPv6, zone inside brackets, v4-mapped, non-canonical spellings, link-local and interface-local multicast with and without zone, site-local multicast, wildcard forms; 1-5 plugins with 0-3 whitespace-separated arguments, null / empty / quoted / integer scalars) with an exact expectation, or with one injected rejection (wrong family, unparseable address, non-numeric port, plugins missing / empty / scalar / map, item with two keys, scalar item, listen+interface, no protocol section); a third of the documents are text mutations (byte overwrite, line deletion, re-indentation, unquoting, YAML re-typed scalars, duplication, truncation) classified no-panic-only. Each file goes through config.Load in a child process inside the private network namespace, so the interface set (multicast expansion) is known. Distinct by document text",
+		level:       "exploration",
+		rule:        "YAML documents generated from the configuration grammar (server4/server6 present or not and in either order; listen absent / deprecated interface alias / scalar / list of 1-4 entries in every [address][%zone][:port] spelling incl. bracketed IPv6, zone inside brackets, v4-mapped, non-canonical spellings, link-local and interface-local multicast with and without zone, site-local multicast, wildcard forms; 1-5 plugins with 0-3 whitespace-separated arguments, null / empty / quoted / integer scalars) with an exact expectation, or with one injected rejection (wrong family, unparseable address, non-numeric port, plugins missing / empty / scalar / map, item with two keys, scalar item, listen+interface, no protocol section); a third of the documents are text mutations (byte overwrite, line deletion, re-indentation, unquoting, YAML re-typed scalars, duplication, truncation) classified no-panic-only. Each file goes through config.Load in a child process inside the private network namespace, so the interface set (multicast expansion) is known. Distinct by document text",
 		assumptions: assume("plugin names are lower-case (viper lower-cases keys); out-of-range ports, unbracketed IPv6 and YAML re-typed scalars are no-panic-only", "the set of multicast-capable interfaces is computed by the harness from net.Interfaces() independently of the loader"),
 		runs:        []runSpec{{engine: "config", netns: true, qBatches: 16, qCases: 20, tBatches: 64, tCases: 1000}},
 		guards:      []guard{{"config.class.must-load", 3000, "must-load documents"}, {"config.class.must-reject", 1500, "must-reject documents"}, {"config.class.no-panic", 3000, "mutated documents"}, {"config.listeners_checked", 5000, "listeners compared"}},
 	},
 	"C19": {
-		level: "exploration",
-		rule: "each case is one built-in plugin (all 15) with one argument vector drawn from valid, boundary and invalid values of each argument kind (addresses of both families and v4-mapped, CIDRs incl. /0 and host routes, durations incl. negative/huge/garbage, integers incl. negative/overflow, URLs, labels of 63/64/255 bytes, file names: valid, malformed, empty, missing, directory; arity 0..6), hosted alone in a fresh server process through plugins.LoadPlugins; if setup accepts it, 40 requests are handled and every reply must parse, re-serialise to the same bytes and carry the options of the in-memory response. Non-trivial = every vector (accepted or rejected); distinct by (plugin, protocol, args)",
+		level:       "exploration",
+		rule:        "each case is one built-in plugin (all 15) with one argument vector drawn from valid, boundary and invalid values of each argument kind (addresses of both families and v4-mapped, CIDRs incl. /0 and host routes, durations incl. negative/huge/garbage, integers incl. negative/overflow, URLs, labels of 63/64/255 bytes, file names: valid, malformed, empty, missing, directory; arity 0..6), hosted alone in a fresh server process through plugins.LoadPlugins; if setup accepts it, 40 requests are handled and every reply must parse, re-serialise to the same bytes and carry the options of the in-memory response. Non-trivial = every vector (accepted or rejected); distinct by (plugin, protocol, args)",
 		assumptions: assume("silent truncation that round-trips (MTU 70000 -> 4464) is an observation, not a violation, as the statement only demands a reply that serialises and parses back to the same options"),
 		runs:        []runSpec{{engine: "setup", qBatches: 16, qCases: 180, tBatches: 64, tCases: 4000}},
 		guards:      []guard{{"setup.accepted", 200, "accepted vectors"}, {"setup.rejected", 200, "rejected vectors"}, {"setup.replies_round_tripped", 3000, "replies round-tripped"}},
